@@ -47,7 +47,13 @@ CHECKS = {
             "materialization is handed back with no evaluation. Proof (partial): Processor.process histories and the SQL "
             "engine's payloads are validated by correspondence + oracle, not proved. " + CORR, "", "DESIGN.md 5/C10"),
     "C11": (TV, "Lean model + correspondence (proofs in progress)", CORR, "", "DESIGN.md 5/C11"),
-    "C12": (TV, "Lean model + correspondence incl. evaluation by SQLite (proofs in progress)", CORR, "", "DESIGN.md 5/C12"),
+    "C12": (PR, "Lean 4 theorems: iteration callable = direct value; SQL translation = direct value (incl. range arithmetic for all start/stop/step) + correspondence incl. evaluation by SQLite",
+            "Machine-checked for all expression/predicate trees over the portable operator set and all NULL-free rows that "
+            "have the required columns: the iteration engine's callable yields the direct value and never raises; the SQL "
+            "translation evaluates (SQLite arithmetic, truncating %) to the direct value; membership in range(a,b,s) is "
+            "translated correctly for ALL a, b, s (negative steps and starts, single-element and empty ranges). The SQL "
+            "evaluator is a model of the database, validated on SQLite for every generated expression. " + CORR,
+            "", "DESIGN.md 5/C12"),
     "C13": (PR, "Lean 4 theorems by mutual structural induction over the nested predicate type + correspondence",
             "Machine-checked for all predicate/expression trees and rows: as_trivial sound (spec and callable), "
             "flatten_logical_and sound, Selection normalisation equivalent, required columns sufficient. " + CORR,
